@@ -30,6 +30,11 @@ META = {
 
 def run(prog, report, tier):
     deg2, deg3 = (6, 4) if tier == 'quick' else (12, 7)
+    # premise: the tabulated base rules are exact for their classes (the
+    # property is stated for "every tabulated base rule"); gauss_log is
+    # left to C05, where its two known findings are listed
+    from .c05 import check_base_tables
+    check_base_tables(prog, report, skip=('gauss_log_quadrature_rule', ))
     quadalg.check_affine(prog, report)
     quadalg.check_mirrors(prog, report)
     quadalg.check_layout(prog, report)
